@@ -96,6 +96,9 @@ func run(c *mon.Ctx) {
 }
 
 func paths(c *mon.Ctx, cs gen.Case, id string) {
+	if c.Saturated() {
+		return // the verdict is decided; see mon.Saturated
+	}
 	a := cs.Frame
 	hl := a.Version.HeaderLen()
 	for ci, comp := range comps {
